@@ -293,3 +293,46 @@ def insertion_spec(dim, ins):
     adds = [k for k in dict.fromkeys(pos) if k in valid]
     subs = [k for k in dict.fromkeys(neg) if k in valid]
     return ("sub", ins["name"], adds, subs)
+
+
+# ---------------------------------------------------------------------- visibility (C09)
+def _empty_vector(orc, own, opp, key, own_is_rows):
+    """True iff no respondent is eligible in the own-direction *unweighted* base of any
+    cell of the vector.  For an MR vector the base counts selected and not-selected
+    answers, except against another MR dimension where `selected` is required."""
+    spec = ("el", key)
+    for ok in opp.keys:
+        ospec = ("el", ok)
+        rs, cs = (spec, ospec) if own_is_rows else (ospec, spec)
+        if own.kind == "mr" and opp.kind != "mr":
+            b = orc.table_base(rs, cs, False)
+        elif own_is_rows:
+            b = orc.row_base(rs, cs, False)
+        else:
+            b = orc.col_base(rs, cs, False)
+        if b > 0:
+            return False
+    return True
+
+
+def empty_rows(orc):
+    return [i for i, k in enumerate(orc.rows.keys)
+            if _empty_vector(orc, orc.rows, orc.cols, k, True)]
+
+
+def empty_cols(orc):
+    return [j for j, k in enumerate(orc.cols.keys)
+            if _empty_vector(orc, orc.cols, orc.rows, k, False)]
+
+
+def empty_strand_rows(orc):
+    out = []
+    for i, k in enumerate(orc.rows.keys):
+        spec = ("el", k)
+        if orc.rows.kind == "mr":
+            b = orc.base1(spec, False)
+        else:
+            b = orc.count1(spec, False)
+        if b == 0:
+            out.append(i)
+    return out
